@@ -48,7 +48,7 @@ Variable terminated : St -> bool.           (* source[-1] in "\r\n" *)
 Variable add_nl : St -> St.                 (* source + "\n" *)
 Variable ends_lf : St -> bool.              (* the final line break may be dropped: formatted.endswith("\n") and
                                                formatted[:-1] does not end in a backslash followed by a line break
-                                               (there it ends the statement: fix d3c334f); for an unterminated s,
+                                               (there it ends the statement: fix a529c0f); for an unterminated s,
                                                ends_lf (add_nl s) holds, as T04.8' assumes *)
 Variable drop_last : St -> St.              (* formatted[:-1] *)
 
